@@ -23,7 +23,7 @@ RULE = ("every public constructor / derived operation of Rect, NonZeroRect, Size
         "extremes, plus seeded random arguments; non-trivial = the call returned Some; distinct = distinct case line")
 
 FT_Q = [0, NZERO, 1, f2b(0.5), f2b(1.0), f2b(-1.5), f2b(2.7), f2b(100.25), f2b(2147483520.0), f2b(-2147483648.0),
-        MAXF, NMAXF, INF, NAN]
+        f2b(-1e30), f2b(5e30), MAXF, NMAXF, INF, NAN]
 FT_T = BOUNDARY_F32
 IT = [0, 1, -1, 2, 7, 100, 32767, 65536, 2**31 - 1, -2**31, 2**31 - 2, -2**31 + 1, 2**30]
 UT = [0, 1, 2, 7, 100, 65535, 2**29 - 1, 2**29, 2**31 - 1, 2**31, 2**32 - 1]
